@@ -1,9 +1,14 @@
 package t0058
 
+type G2 struct {
+	F1x0x0 int64
+}
+
+type G1 struct {
+	F1x0 G2
+}
 
 type T struct {
-	F0 int32
-	F1 *int64
-	F2 float32
-	F3 float64
+	F0 *int32
+	F1 G1
 }
